@@ -463,11 +463,11 @@ class Group(System):
 
                         if not scalar_ref:
                             ref = ref[src_indices]
-                        else:  # ref is scalar so ref0 must be an array
-                            ref = np.full(ref0.shape, ref)
                         if not scalar_ref0:
                             ref0 = ref0[src_indices]
-                        else:  # ref0 is scalar so ref must be an array
+                        if scalar_ref:  # ref is scalar so ref0 must be an array
+                            ref = np.full(ref0.shape, ref)
+                        elif scalar_ref0:  # ref0 is scalar so ref must be an array
                             ref0 = np.full(ref.shape, ref0)
 
                 # Compute scaling arrays for inputs using a0 and a1
